@@ -514,26 +514,34 @@ func buildEntry(ot byte, f int) (cls string, b []byte) {
 }
 
 func emitED(b []byte) {
-	var box mp4.Box
-	var err error
-	obs := ""
-	p := hx.Try(func() { box, err = mp4.DecodeBox(0, bytes.NewReader(hx.Exact(b))) })
-	switch {
-	case p != "":
-		obs = "panic"
-	case err != nil:
-		obs = "err"
-	default:
-		e, ok := box.(*mp4.AudioSampleEntryBox)
-		if !ok || e.Esds == nil || e.Esds.DecConfigDescriptor == nil || e.Esds.DecConfigDescriptor.DecSpecificInfo == nil {
-			obs = "other"
-		} else {
-			dc := e.Esds.DecConfigDescriptor.DecSpecificInfo.DecConfig
-			cls, a := decodeASC(dc)
-			obs = fmt.Sprintf("ok/%d/%d/%d/%d/%s/%s", e.DataReferenceIndex, e.ChannelCount, e.SampleSize, e.SampleRate, hx.Hex(dc), ascObs(cls, a))
+	for _, kind := range []string{"ED", "ES"} {
+		var box mp4.Box
+		var err error
+		obs := ""
+		p := hx.Try(func() {
+			if kind == "ED" {
+				box, err = mp4.DecodeBox(0, bytes.NewReader(hx.Exact(b)))
+			} else {
+				box, err = mp4.DecodeBoxSR(0, bits.NewFixedSliceReader(hx.Exact(b)))
+			}
+		})
+		switch {
+		case p != "":
+			obs = "panic"
+		case err != nil:
+			obs = "err"
+		default:
+			e, ok := box.(*mp4.AudioSampleEntryBox)
+			if !ok || e.Esds == nil || e.Esds.DecConfigDescriptor == nil || e.Esds.DecConfigDescriptor.DecSpecificInfo == nil {
+				obs = "other"
+			} else {
+				dc := e.Esds.DecConfigDescriptor.DecSpecificInfo.DecConfig
+				cls, a := decodeASC(dc)
+				obs = fmt.Sprintf("ok/%d/%d/%d/%d/%s/%s", e.DataReferenceIndex, e.ChannelCount, e.SampleSize, e.SampleRate, hx.Hex(dc), ascObs(cls, a))
+			}
 		}
+		fmt.Fprintf(out, "%s\t%s\t%s\t%s\n", kind, nextID(strings.ToLower(kind)), hx.Hex(b), obs)
 	}
-	fmt.Fprintf(out, "ED\t%s\t%s\t%s\n", nextID("ed"), hx.Hex(b), obs)
 }
 
 func corrEntry(r *hx.Rng, n int, thorough bool) {
